@@ -149,8 +149,43 @@ class applied_config(object):
         return False
 
 
+_IN_FORK = [False]
+
+
+def _run_in_fork(mod, case, allowance):
+    """The case runs in a forked child of this process (petl imported before
+    the fork, as under multiprocessing's fork start method); the outcome comes
+    back through a pipe."""
+    import pickle
+    r, w = os.pipe()
+    pid = os.fork()
+    if pid == 0:
+        code = 0
+        try:
+            os.close(r)
+            _IN_FORK[0] = True
+            out = run_guarded(mod, case, allowance)
+            with os.fdopen(w, 'wb') as f:
+                f.write(pickle.dumps(out))
+        except BaseException:
+            code = 1
+        finally:
+            os._exit(code)
+    os.close(w)
+    with os.fdopen(r, 'rb') as f:
+        data = f.read()
+    os.waitpid(pid, 0)
+    if not data:
+        raise RuntimeError('forked case runner died without an outcome')
+    out = pickle.loads(data)
+    out['probes']['ran-in-forked-child'] = 1
+    return out
+
+
 def run_guarded(mod, case, allowance=30):
     """Run one case; harness exceptions are kept apart from violations."""
+    if case.get('forked') and not _IN_FORK[0]:
+        return _run_in_fork(mod, case, allowance)
     signal.signal(signal.SIGALRM, _alarm)
     signal.alarm(allowance)
     devices.CTX.fired = {}
